@@ -1,3 +1,4 @@
+from .common import frame_unit, GATE_FILES, TOMO_FILES
 LEVEL = "other"
 EXPLANATION = "under construction"
 ASSUMPTIONS = ["A1: exact reals (xlift units)", "scipy sqrtm / numpy eigh (fidelity, MLE projections): native units only", "MLE convergence (fidelity >= 0.99) is a numerical property: checked on a stated family, not proved"]
@@ -10,4 +11,5 @@ def units(tier):
     for w in ("li", "gate", "mle"):
         for n in (1, 2):
             u.append(dict(kind="func", mechanism="bounded runtime contract (C), native floats", name=f"bounded:{w}-native[n={n}]", module="vf.tasks.t_tomo", func="unit", args=dict(mode="native", which=w, n=n)))
+    u.append(frame_unit("tomography", TOMO_FILES + GATE_FILES))
     return u
